@@ -620,6 +620,45 @@ func init() {
 	}
 	registerTimeCtx()
 	registerJSON()
+	registerURL()
+}
+
+// net/url is modelled as an opaque token: Parse stores the text in Path (or
+// fails), String returns it. Only String(Parse(s)) == s is relied upon.
+func registerURL() {
+	fieldIdx := func(e *Exec, name string) (types.Type, int) {
+		t := e.lookupType("net/url", "URL")
+		st := t.Underlying().(*types.Struct)
+		for i := 0; i < st.NumFields(); i++ {
+			if st.Field(i).Name() == name {
+				return t, i
+			}
+		}
+		panic(e.unsupported("url.URL field " + name))
+	}
+	intrinsics["net/url.Parse"] = func(e *Exec, th *Thread, a []Value) Value {
+		t, pi := fieldIdx(e, "Path")
+		o := e.newObj(e.zero(t), t, "url")
+		p := PtrV{obj: o}
+		e.store(p.sub(pi), a[0])
+		return TupleV{p, IfaceV{}}
+	}
+	intrinsics["(*net/url.URL).String"] = func(e *Exec, th *Thread, a []Value) Value {
+		_, pi := fieldIdx(e, "Path")
+		p := a[0].(PtrV)
+		if p.IsNil() {
+			e.raise(th, "nil-dereference", nil)
+		}
+		return e.load(p.sub(pi))
+	}
+	intrinsics["(*net/url.URL).IsAbs"] = func(e *Exec, th *Thread, a []Value) Value {
+		_, si := fieldIdx(e, "Scheme")
+		p := a[0].(PtrV)
+		if p.IsNil() {
+			e.raise(th, "nil-dereference", nil)
+		}
+		return Not(Eq(e.load(p.sub(si)).(*StrV).n, IntC(0)))
+	}
 }
 
 // b64: base64 is modelled as the identity on the abstract string (an
